@@ -62,8 +62,14 @@ fn verif_skip_take<'a>(v: &'a Xvec, a: usize, n: usize) -> (r: XvecIter<'a>)
                let hi = if a + n <= v@.len() { a + n } else { v@.len() as int };
                r.rem().len() == hi - lo && forall|i: int| 0 <= i < hi - lo ==> *(#[trigger] r.rem()[i]) == v@[lo + i] })
 { unimplemented!() }
-// ASSUMED: slice_str (chars().skip().take().collect(): string code outside the Verus subset)
-#[verifier::external_body] fn slice_str(s: &Xstr, start: isize, end: isize) -> String { unimplemented!() }
+// ASSUMED std meaning of the two `chars()` chains of slice_str: the number of characters; the characters
+// [min(a,len), min(a+n,len)) collected into a String.  `Xstr::len` (the BYTE length) is some other number.
+#[verifier::external_body] fn verif_chars_count(s: &Xstr) -> (r: usize) ensures r == xstr_chars(*s).len() { unimplemented!() }
+#[verifier::external_body] fn verif_chars_skip_take(s: &Xstr, a: usize, n: usize) -> (r: String)
+    ensures ({ let len = xstr_chars(*s).len() as int;
+               let lo = if a <= len { a as int } else { len }; let hi = if a + n <= len { a + n } else { len };
+               r@ == xstr_chars(*s).subrange(lo, hi) })
+{ unimplemented!() }
 // `Cell::Str(Xstr::from(x))` (src/cell.rs): ASSUMED one-liner over the arcstr conversion
 impl From<String> for Cell { #[verifier::external_body] fn from(x: String) -> (r: Cell) ensures r is Str && xstr_chars(r->Str_0) == x@ { unimplemented!() } }
 impl core::ops::Deref for Xstr { type Target = str; #[verifier::external_body] fn deref(&self) -> (r: &str) ensures r@ == xstr_chars(*self) { unimplemented!() } }
@@ -178,6 +184,7 @@ impl State {
 //@use coll.fns ::core_word_equal
 //@use coll.fns ::core_word_assert_eq
 //@use coll.fns ::core_word_is_nil
+//@use coll.fns ::slice_str
 //@use coll.fns ::slice_vec
 //@use coll.fns ::core_word_slice
 //@use coll.fns ::core_word_unbox
